@@ -12,10 +12,11 @@ impl<$TP> Handle<$G, Message<$O, Tok_sink_talkback>> for SinkH {
         else if k == $GATE_NO_ORPHAN { m is Terminate || m is Error ==> $ORPHAN }
         else if k == $GATE_QUIET { $QUIET }
         else if k == $GATE_UNREQUESTED { m is Data && c.pullable ==> g.dn.data.len() < g.dn.pulls }
-        else { true }
+        else { $SINKGATE }
     }
     open spec fn post(&self, g: $G, m: Message<$O, Tok_sink_talkback>) -> $G { $GNAME { dn: dn_send(g.dn, m), ..g } }
-    open spec fn needs_inv(&self, g: $G, m: Message<$O, Tok_sink_talkback>) -> bool { !(m is Terminate || m is Error) }
+    open spec fn needs_inv(&self, g: $G, m: Message<$O, Tok_sink_talkback>, p: int) -> bool { !(m is Terminate || m is Error) }
+    open spec fn extra(&self, h: Self::HH, g: $G, c: Self::CC, m: Message<$O, Tok_sink_talkback>) -> bool { true }
 }
 impl SinkH {
     /// the operator delivers `m` to its sink
@@ -23,12 +24,13 @@ impl SinkH {
     pub fn call<$TP>(&self, h: &mut $HEAP, g: &mut Ghost<$G>, c: &Cap, m: Message<$O, Tok_sink_talkback>)
         requires
             GATES!(self, *old(h), old(g)@, *c, m),
-            self.needs_inv(old(g)@, m) ==> INV!(*old(h), self.post(old(g)@, m), *c),
+            self.extra(*old(h), old(g)@, *c, m),
+            self.needs_inv(old(g)@, m, $P) ==> INV!(*old(h), self.post(old(g)@, m), *c),
         ensures
-            self.needs_inv(old(g)@, m) ==> INV!(*final(h), final(g)@, *c),
+            self.needs_inv(old(g)@, m, $P) ==> INV!(*final(h), final(g)@, *c),
             mono(*old(h), self.post(old(g)@, m), *final(h), final(g)@),
             sink_rel(*old(h), self.post(old(g)@, m), *final(h), final(g)@, *c),
-            !self.needs_inv(old(g)@, m) ==> *final(h) == *old(h) && final(g)@ == self.post(old(g)@, m),
+            !self.needs_inv(old(g)@, m, 0) ==> *final(h) == *old(h) && final(g)@ == self.post(old(g)@, m),
     {
         proof { g@ = self.post(g@, m); }
         if matches!(m, Message::Terminate | Message::Error(_)) { return; }  // a terminated sink is silent
